@@ -5,6 +5,10 @@
 #include "cases.hpp"
 #include "model/vm.hpp"
 
+#include <thread>
+#include <mutex>
+#include "aes_hash.hpp"
+
 using namespace rxv;
 
 namespace {
@@ -65,13 +69,46 @@ RXV_SUBCOMMAND(c02) {
 		}
 		auto readDs = [&](uint64_t addr, uint8_t* out) { mc.item(addr / 64, out); };
 
+		// ---- directed inputs: configuration values at the ends of their ranges occur once in 2^19 programs, far below what a
+		// dozen inputs reach. The first program's configuration block is a cheap function of the input (Blake2b, AesGenerator1R over
+		// the scratchpad, AesGenerator4R), so candidates are screened with the library's own generators (tied to the specification by
+		// C11 / C12) for a maximal or zero dataset-offset field; the inputs found are then hashed like all others and compared with
+		// the model, which derives the configuration independently.
+		std::vector<std::vector<uint8_t>> directed;
+		if (ki == 0) {
+			const uint64_t budget = args.num("search", 600000);
+			const unsigned nth = 8;
+			std::mutex dm; std::vector<std::thread> th;
+			const bool hard = (hw & RANDOMX_FLAG_HARD_AES) != 0;
+			for (unsigned t = 0; t < nth; ++t) th.emplace_back([&, t] {
+				std::vector<uint8_t> sp(RANDOMX_SCRATCHPAD_L3 + 64);
+				uint8_t* spa = (uint8_t*)(((uintptr_t)sp.data() + 63) & ~(uintptr_t)63);
+				for (uint64_t n = t; n < budget; n += nth) {
+					char buf[64]; int len = snprintf(buf, sizeof buf, "rxv-directed-%u-%llu-%llu", args.shard, (unsigned long long)args.seed, (unsigned long long)n);
+					alignas(16) uint64_t st[8]; alignas(16) uint64_t cfg[16];
+					mdl::hash512(st, (const uint8_t*)buf, (size_t)len);
+					if (hard) { fillAes1Rx4<false>(st, RANDOMX_SCRATCHPAD_L3, spa); fillAes4Rx4<false>(st, 128, cfg); }
+					else { fillAes1Rx4<true>(st, RANDOMX_SCRATCHPAD_L3, spa); fillAes4Rx4<true>(st, 128, cfg); }
+					const uint64_t off = cfg[13] & 0x7FFFF;
+					if (off == 0x7FFFF || off == 0) {
+						std::lock_guard<std::mutex> l(dm);
+						if (directed.size() < 6) directed.emplace_back((const uint8_t*)buf, (const uint8_t*)buf + len);
+						R.count(off ? "directed_inputs_max_dataset_offset" : "directed_inputs_zero_dataset_offset");
+					}
+				}
+			});
+			for (auto& x : th) x.join();
+			R.count("directed_candidates_screened", budget);
+		}
+
 		for (int v2 = 0; v2 < 2; ++v2) {
 			const randomx_flags vflag = v2 ? RANDOMX_FLAG_V2 : RANDOMX_FLAG_DEFAULT;
 			randomx_vm* vm = api::createVm((randomx_flags)(RANDOMX_FLAG_DEFAULT | vflag), cache, nullptr);
 			randomx_vm* vmJit = api::createVm((randomx_flags)(RANDOMX_FLAG_JIT | (hw & RANDOMX_FLAG_HARD_AES) | vflag), cache, nullptr);
 			if (!vm || !vmJit) R.harnessFail("create_vm failed");
-			for (uint64_t ii = 0; ii < nInputs; ++ii) {
-				std::vector<uint8_t> input = cases::makeInput(rng, ii + 7 * ki + (v2 ? 3 : 0));
+			for (uint64_t ii = 0; ii < nInputs + directed.size(); ++ii) {
+				std::vector<uint8_t> input = ii < nInputs ? cases::makeInput(rng, ii + 7 * ki + (v2 ? 3 : 0)) : directed[ii - nInputs];
+				if (ii >= nInputs) R.count("directed_inputs_hashed");
 				std::string caseJson = "{\"key\":\"" + keyHex + "\",\"input\":\"" + hex(input.data(), input.size() > 256 ? 256 : input.size()) + "\",\"input_len\":" + std::to_string(input.size()) + ",\"v2\":" + std::to_string(v2) + "}";
 				R.setCase(caseJson);
 				// model
